@@ -194,6 +194,30 @@ def eval_case(case):
             c2 = np.asarray(code.logical_errors((E[i] + g) % 2)).astype(int)
             if not np.array_equal(a, c2):
                 fail('logical_errors_coset_constant', f'{E[i].tolist()}')
+        # the same verdicts for an error handed over as a sparse row, also
+        # one that came out of a mod-2 sum (`t = a + b; t.data %= 2` leaves
+        # explicitly stored zeros where ones cancelled)
+        from scipy.sparse import csr_matrix
+        for _ in range(6):
+            i = int(rng.integers(0, len(E)))
+            mask = (rng.random(2 * n) < 0.3).astype(np.uint8)
+            a_ = csr_matrix((E[i] ^ mask).reshape(1, -1))
+            t_ = a_ + csr_matrix(mask.reshape(1, -1))
+            t_.data %= 2
+            for tag, sp in (('csr row', csr_matrix(E[i].reshape(1, -1))),
+                            ('csr row with stored zeros', t_)):
+                want = (bool(code.in_codespace(E[i])), bool(code.is_success(E[i])),
+                        np.asarray(code.logical_errors(E[i])).ravel().tolist())
+                try:
+                    got = (bool(code.in_codespace(sp)), bool(code.is_success(sp)),
+                           np.asarray(code.logical_errors(sp)).ravel().tolist())
+                except Exception as exc:      # noqa
+                    got = f'{type(exc).__name__}: {exc}'
+                if got != want:
+                    fail('verdicts_independent_of_representation',
+                         f'error {E[i].tolist()} as {tag}: (in_codespace, is_success, '
+                         f'logical_errors) = {got}, dense vector gives {want}')
+                    break
         labels = [f'big:{label}']
     for f in fails:
         f['sig'] = {'class': label}
